@@ -156,7 +156,7 @@ avx_harness!(c10_switch_ring__8_to_16, switch_ring_pair::<8, 16>());
 avx_harness!(c10_switch_ring__4_to_16, switch_ring_pair::<4, 16>());
 
 // ---- normalisation step kernels: radix constant, lsh symbolic, length 5 ----
-fn norm_family<const L: usize>(b: usize) {
+fn norm_first<const L: usize>(b: usize) {
     let lsh: usize = kani::any();
     kani::assume(lsh < b);
     let a: [i64; L] = arr::<L>(H62);
@@ -174,20 +174,65 @@ fn norm_family<const L: usize>(b: usize) {
     cmp2!(|x: &mut [i64; L], c: &mut [i64; L]| { *x = a; znx_normalize_first_step_assign_avx(b, lsh, x, c) }, |x: &mut [i64; L], c: &mut [i64; L]| { *x = a; znx_normalize_first_step_assign_ref(b, lsh, x, c) }, "C10:first_step_assign");
     cmp2!(|x: &mut [i64; L], c: &mut [i64; L]| znx_normalize_first_step_avx::<true>(b, lsh, x, &a, c), |x: &mut [i64; L], c: &mut [i64; L]| znx_normalize_first_step_ref::<true>(b, lsh, x, &a, c), "C10:first_step<true>");
     cmp2!(|x: &mut [i64; L], c: &mut [i64; L]| znx_normalize_first_step_avx::<false>(b, lsh, x, &a, c), |x: &mut [i64; L], c: &mut [i64; L]| znx_normalize_first_step_ref::<false>(b, lsh, x, &a, c), "C10:first_step<false>");
+}
+
+fn norm_middle<const L: usize>(b: usize) {
+    let lsh: usize = kani::any();
+    kani::assume(lsh < b);
+    let a: [i64; L] = arr::<L>(H62);
+    let c0: [i64; L] = arr::<L>(H61);
+    let x0: [i64; L] = arr::<L>(H61);
+    macro_rules! cmp2 { ($avx:expr, $rf:expr, $msg:expr) => {{
+        let (mut x1, mut c1) = (x0, c0);
+        let (mut x2, mut c2) = (x0, c0);
+        #[allow(unused_unsafe)]
+        unsafe { $avx(&mut x1, &mut c1) };
+        $rf(&mut x2, &mut c2);
+        assert!(eq(&x1, &x2) && eq(&c1, &c2), $msg);
+    }}; }
     cmp2!(|x: &mut [i64; L], c: &mut [i64; L]| znx_normalize_middle_step_carry_only_avx(b, lsh, &a, c), |x: &mut [i64; L], c: &mut [i64; L]| znx_normalize_middle_step_carry_only_ref(b, lsh, &a, c), "C10:middle_step_carry_only");
     cmp2!(|x: &mut [i64; L], c: &mut [i64; L]| { *x = a; znx_normalize_middle_step_assign_avx(b, lsh, x, c) }, |x: &mut [i64; L], c: &mut [i64; L]| { *x = a; znx_normalize_middle_step_assign_ref(b, lsh, x, c) }, "C10:middle_step_assign");
     cmp2!(|x: &mut [i64; L], c: &mut [i64; L]| znx_normalize_middle_step_avx::<true>(b, lsh, x, &a, c), |x: &mut [i64; L], c: &mut [i64; L]| znx_normalize_middle_step_ref::<true>(b, lsh, x, &a, c), "C10:middle_step<true>");
     cmp2!(|x: &mut [i64; L], c: &mut [i64; L]| znx_normalize_middle_step_avx::<false>(b, lsh, x, &a, c), |x: &mut [i64; L], c: &mut [i64; L]| znx_normalize_middle_step_ref::<false>(b, lsh, x, &a, c), "C10:middle_step<false>");
     cmp2!(|x: &mut [i64; L], c: &mut [i64; L]| znx_normalize_middle_step_sub_avx(b, lsh, x, &a, c), |x: &mut [i64; L], c: &mut [i64; L]| znx_normalize_middle_step_sub_ref(b, lsh, x, &a, c), "C10:middle_step_sub");
+}
+
+fn norm_final<const L: usize>(b: usize) {
+    let lsh: usize = kani::any();
+    kani::assume(lsh < b);
+    let a: [i64; L] = arr::<L>(H62);
+    let c0: [i64; L] = arr::<L>(H61);
+    let x0: [i64; L] = arr::<L>(H61);
+    macro_rules! cmp2 { ($avx:expr, $rf:expr, $msg:expr) => {{
+        let (mut x1, mut c1) = (x0, c0);
+        let (mut x2, mut c2) = (x0, c0);
+        #[allow(unused_unsafe)]
+        unsafe { $avx(&mut x1, &mut c1) };
+        $rf(&mut x2, &mut c2);
+        assert!(eq(&x1, &x2) && eq(&c1, &c2), $msg);
+    }}; }
     cmp2!(|x: &mut [i64; L], c: &mut [i64; L]| { *x = a; znx_normalize_final_step_assign_avx(b, lsh, x, c) }, |x: &mut [i64; L], c: &mut [i64; L]| { *x = a; znx_normalize_final_step_assign_ref(b, lsh, x, c) }, "C10:final_step_assign");
     cmp2!(|x: &mut [i64; L], c: &mut [i64; L]| znx_normalize_final_step_avx::<true>(b, lsh, x, &a, c), |x: &mut [i64; L], c: &mut [i64; L]| znx_normalize_final_step_ref::<true>(b, lsh, x, &a, c), "C10:final_step<true>");
     cmp2!(|x: &mut [i64; L], c: &mut [i64; L]| znx_normalize_final_step_avx::<false>(b, lsh, x, &a, c), |x: &mut [i64; L], c: &mut [i64; L]| znx_normalize_final_step_ref::<false>(b, lsh, x, &a, c), "C10:final_step<false>");
     cmp2!(|x: &mut [i64; L], c: &mut [i64; L]| znx_normalize_final_step_sub_avx(b, lsh, x, &a, c), |x: &mut [i64; L], c: &mut [i64; L]| znx_normalize_final_step_sub_ref(b, lsh, x, &a, c), "C10:final_step_sub");
 }
-avx_harness!(c10_norm_steps__b17_len5, norm_family::<5>(17));
-avx_harness!(c10_norm_steps__b1_len5, norm_family::<5>(1));
-avx_harness!(c10_norm_steps__b52_len5, norm_family::<5>(52));
-avx_harness!(c10_norm_steps__b62_len5, norm_family::<5>(62));
+
+avx_harness!(c10_norm_first__b17_len5, norm_first::<5>(17));
+avx_harness!(c10_norm_middle__b17_len5, norm_middle::<5>(17));
+avx_harness!(c10_norm_final__b17_len5, norm_final::<5>(17));
+
+avx_harness!(c10_norm_first__b1_len5, norm_first::<5>(1));
+avx_harness!(c10_norm_middle__b1_len5, norm_middle::<5>(1));
+avx_harness!(c10_norm_final__b1_len5, norm_final::<5>(1));
+
+avx_harness!(c10_norm_first__b52_len5, norm_first::<5>(52));
+avx_harness!(c10_norm_middle__b52_len5, norm_middle::<5>(52));
+avx_harness!(c10_norm_final__b52_len5, norm_final::<5>(52));
+
+avx_harness!(c10_norm_first__b62_len5, norm_first::<5>(62));
+avx_harness!(c10_norm_middle__b62_len5, norm_middle::<5>(62));
+avx_harness!(c10_norm_final__b62_len5, norm_final::<5>(62));
+
 
 fn digit_family<const L: usize>(b: usize) {
     let sh: usize = kani::any();
